@@ -115,3 +115,32 @@ harness!(c16_next_previous, unwind = 2, |s| {
         next_prev_body(s, TimeScale::TAI, 0);
     }
 });
+
+// quick-tier twin of c16_next_previous: TAI epochs 1900-2100, every day and every nanosecond of the day x 7 weekdays.
+// Unwind 44 although the code under test has no loop here: a change that routes next/previous through a UTC conversion
+// (leap-second table scan) must come back as a counterexample, not as an unwinding failure.
+harness!(c16_next_previous_quick, unwind = 44, |s| {
+    let c = s.i16();
+    let dayc = s.u32();
+    let tod = s.u64();
+    s.assume(c >= 0 && c <= 1 && dayc < 36_525 && tod < NPD);
+    let (w, wi) = any_weekday(s);
+    let n = dayc as u64 * NPD + tod;
+    let e = Epoch::from_duration(Duration::from_parts(c, n), TimeScale::TAI);
+    let day = c as i64 * 36_525 + dayc as i64;
+    let wd = (day % 7) as i16; // 1900-01-01 (day 0) was a Monday
+    let mut k_next = (wi as i16 - wd + 7) % 7;
+    if k_next == 0 {
+        k_next = 7;
+    }
+    let mut k_prev = (wd - wi as i16 + 7) % 7;
+    if k_prev == 0 {
+        k_prev = 7;
+    }
+    let nx = e.next(w);
+    let pv = e.previous(w);
+    v_assert!(s, nx.time_scale == TimeScale::TAI && pv.time_scale == TimeScale::TAI, "scale kept");
+    v_assert!(s, Some(nx.duration.to_parts()) == shift_parts((c, n), k_next as i128 * NPD as i128), "next: 1..7 whole days later on the requested weekday (TAI calendar), same time of day");
+    v_assert!(s, Some(pv.duration.to_parts()) == shift_parts((c, n), -(k_prev as i128) * NPD as i128), "previous: 1..7 whole days earlier on the requested weekday (TAI calendar), same time of day");
+    v_cover!(k_next == 7 && c == 1 && tod < 37 * NPS, "same weekday requested, first seconds of a TAI day in the 21st century reachable");
+});
